@@ -47,6 +47,7 @@ type FuncContract struct {
 	Abstract   bool
 	Fresh      bool // result is freshly allocated
 	NoEffect   []string // callee-name patterns assumed to have no effect on the modelled heap
+	Opaque     []string // callee-name patterns never inlined: treated as unknown code (havoc of the modelled heap, results unconstrained)
 	FreshOnly  []string // callee-name patterns assumed to modify only objects allocated since this function was entered
 	File       string
 	Line       int
@@ -79,7 +80,21 @@ type Lemma struct {
 	Props   []string
 }
 
+// Structural: a type-level obligation discharged by go/types instead of a solver: every struct field in the named
+// packages whose yaml name matches Fields (and not Except) must have one of the named types (after dereferencing).
+type Structural struct {
+	Name   string
+	Props  []string
+	In     []string // package path prefixes
+	Fields string
+	Except string
+	Types  []string // type names (unqualified)
+	File   string
+	Line   int
+}
+
 type Contracts struct {
+	Structurals []*Structural
 	Funcs  map[string]*FuncContract // key: pkgpath + "::" + name
 	Specs  map[string]*SpecFunc     // key: name (global namespace, must be unique)
 	UFs    map[string]*UFDecl
@@ -90,7 +105,7 @@ type Contracts struct {
 
 func fkey(pkg, name string) string { return pkg + "::" + name }
 
-var kwRe = regexp.MustCompile(`^(func|spec|lemma|axiom|uf|requires|ensures|invariant|loop|assigns|pure|inline|trusted|maypanic|nosafe|abstract|fresh|at|props|finding|noeffect|freshonly|assumes|after)\b`)
+var kwRe = regexp.MustCompile(`^(func|spec|lemma|axiom|uf|structural|in|fields|except|types|requires|ensures|invariant|loop|assigns|pure|inline|trusted|maypanic|nosafe|abstract|fresh|at|props|finding|noeffect|freshonly|opaque|assumes|after)\b`)
 
 // loadContractFile parses one file. pkgPath is the import path of the package it annotates.
 func (cs *Contracts) loadContractFile(path, pkgPath string) error {
@@ -131,6 +146,7 @@ func (cs *Contracts) loadContractFile(path, pkgPath string) error {
 	}
 	var cur *FuncContract
 	var curLemma *Lemma
+	var curStruct *Structural
 	for _, rc := range raws {
 		kw := kwRe.FindString(rc.text)
 		rest := strings.TrimSpace(rc.text[len(kw):])
@@ -151,7 +167,32 @@ func (cs *Contracts) loadContractFile(path, pkgPath string) error {
 			c.E = e
 			return c, nil
 		}
+		if curStruct != nil {
+			handled := true
+			switch kw {
+			case "props":
+				curStruct.Props = append(curStruct.Props, strings.Fields(strings.ReplaceAll(rest, ",", " "))...)
+			case "in":
+				curStruct.In = append(curStruct.In, strings.Fields(rest)...)
+			case "fields":
+				curStruct.Fields = rest
+			case "except":
+				curStruct.Except = rest
+			case "types":
+				curStruct.Types = append(curStruct.Types, strings.Fields(rest)...)
+			default:
+				handled = false
+				curStruct = nil
+			}
+			if handled {
+				continue
+			}
+		}
 		switch kw {
+		case "structural":
+			curStruct = &Structural{Name: rest, File: path, Line: rc.line}
+			cs.Structurals = append(cs.Structurals, curStruct)
+			cur, curLemma = nil, nil
 		case "func":
 			name := rest
 			pkg := pkgPath
@@ -289,6 +330,8 @@ func (cs *Contracts) loadContractFile(path, pkgPath string) error {
 			cur.Fresh = true
 		case "noeffect":
 			cur.NoEffect = append(cur.NoEffect, strings.Fields(strings.ReplaceAll(rest, ",", " "))...)
+		case "opaque":
+			cur.Opaque = append(cur.Opaque, strings.Fields(strings.ReplaceAll(rest, ",", " "))...)
 		case "freshonly":
 			cur.FreshOnly = append(cur.FreshOnly, strings.Fields(strings.ReplaceAll(rest, ",", " "))...)
 		case "props":
